@@ -11,6 +11,7 @@ import (
 	"encoding/json"
 	"errors"
 	"fmt"
+	"hash/crc32"
 	"math"
 	"os"
 	osexec "os/exec"
@@ -332,7 +333,8 @@ func iface(v int) interface{} {
 // sizedVal: a value that reports its own size to the LRU cache (facade kind `lrus`)
 type sizedVal int
 
-func (v sizedVal) Size() int { return int(v)%3 + 1 }
+// rows of size 0, 1 or 2 (model: `vsize`): an LRU may hold nothing but zero-sized rows
+func (v sizedVal) Size() int { return int(v) % 3 }
 
 func (s *store) wrap(v int) interface{} {
 	if v != 0 && s.sized {
@@ -631,6 +633,32 @@ var keyTypes = map[string]func(k int) mux.Hashed2Int{
 	"uint64": func(k int) mux.Hashed2Int { return mux.UInt64(uint64(k)) }, "intcrc": func(k int) mux.Hashed2Int { return mux.IntCRC(k) },
 	"int64crc": func(k int) mux.Hashed2Int { return mux.Int64CRC(k) }, "uint64crc": func(k int) mux.Hashed2Int { return mux.UInt64CRC(uint64(k)) },
 	"string": func(k int) mux.Hashed2Int { return mux.String(strconv.Itoa(k)) },
+	// strmix: one group serving three row kinds whose key types are all string-kind: script keys 3t, 3t+1, 3t+2 are the
+	// DIFFERENT keys mux.String("t"), userID("t"), teamID("t") — equal text, different Go types, hence different cache keys
+	"strmix": func(k int) mux.Hashed2Int {
+		t, r := floorDivMod3(k)
+		switch r {
+		case 0:
+			return mux.String(strconv.Itoa(t))
+		case 1:
+			return userID(strconv.Itoa(t))
+		}
+		return teamID(strconv.Itoa(t))
+	},
+}
+
+type userID string
+type teamID string
+
+func (v userID) HashedInt() int { return int(crc32.ChecksumIEEE([]byte(v))) }
+func (v teamID) HashedInt() int { return int(crc32.ChecksumIEEE([]byte(v))) }
+
+func floorDivMod3(k int) (int, int) {
+	t := k / 3
+	if k%3 < 0 {
+		t--
+	}
+	return t, k - 3*t
 }
 
 // scriptKeyType: the key type selected by `keytype <t>` for the script in flight
@@ -654,7 +682,16 @@ func keyToInt(d interface{}) int {
 		return int(x)
 	case mux.String:
 		n, _ := strconv.Atoi(string(x))
+		if scriptKeyType == "strmix" {
+			return 3 * n
+		}
 		return n
+	case userID:
+		n, _ := strconv.Atoi(string(x))
+		return 3*n + 1
+	case teamID:
+		n, _ := strconv.Atoi(string(x))
+		return 3*n + 2
 	}
 	panic(fmt.Sprintf("harness: unexpected key %T", d))
 }
@@ -1739,13 +1776,17 @@ func genScript(r *rng.R, tier string) []string {
 // genKeyType: the seven operations with keys of another key type of hasher.go (map facade, or an LRU with one worker:
 // which keys share a cache — hence eviction — depends on routing, which the property does not fix)
 func genKeyType(r *rng.R, tier string) []string {
-	t := r.Pick("string", "string", "int64", "uint64", "intcrc", "int64crc", "uint64crc")
+	t := r.Pick("string", "string", "strmix", "strmix", "int64", "uint64", "intcrc", "int64crc", "uint64crc")
 	first := fmt.Sprintf("new map 0 %d", r.PickInt(1, 2, 3, 5))
-	if r.Chance(1, 3) {
+	if r.Chance(1, 3) || (t == "strmix" && r.Bool()) {
 		first = fmt.Sprintf("new %s %d 1", r.Pick("lru", "lrus"), r.PickInt(1, 2, 3, 8))
 	}
 	lines := []string{first, "keytype " + t}
 	keys := []int{r.Range(-3, 7), r.Range(-3, 7), r.Range(0, 1000000)}
+	if t == "strmix" {
+		b := 3 * r.Range(-1, 2) // the three keys of one text
+		keys = []int{b, b + 1, b + 2, r.Range(-3, 7)}
+	}
 	for i, n := 0, r.Range(8, 24); i < n; i++ {
 		k := keys[r.Intn(len(keys))]
 		switch r.Intn(10) {
@@ -1766,7 +1807,7 @@ func genKeyType(r *rng.R, tier string) []string {
 }
 
 func genGarbage(r *rng.R) []string {
-	toks := []string{"backlog", "queued", "gap", "lrus", "start", "where", "probe", "bytes", "new", "get", "add", "upd", "del", "uoa", "utl", "utr", "peek", "store", "stress", "pile", "c", "0c", "cx", "map", "lru", "0", "1", "-1", "-", "01", "2", "x",
+	toks := []string{"backlog", "queued", "gap", "lrus", "strmix", "start", "where", "probe", "bytes", "new", "get", "add", "upd", "del", "uoa", "utl", "utr", "peek", "store", "stress", "pile", "c", "0c", "cx", "map", "lru", "0", "1", "-1", "-", "01", "2", "x",
 		"99999999999999999999", "1000", "+1", "", "012", "-9223372036854775809"}
 	lines := []string{r.Pick("new map 0 1", "new lru 2 2", "new lrus 2 1", "new bogus 1 1", "new lru 65 1", "new map 0 0", "new lru 1 129")}
 	for i := 0; i < 8; i++ {
@@ -1861,6 +1902,14 @@ func fixedCases() []corr.Case {
 			"del 1 -", "peek 1", "utl 2 3 -", "get 2 -", "del 2 1", "get 2 -", "del 2 -", "get 2 -", "add 2 0 -", "del 2 -", "add 2 1 -", "peek 2")
 		add("boundary-keytype", "new lru 2 1", "keytype "+t, "utr -1 5 -", "utl -1 1 -", "get -1 -", "gap upd -1 1", "del -1 -", "get -1 -", "uoa -1 4 -", "peek -1", "store -1")
 	}
+	// three keys with the same text and different string-kind Go types in one worker's cache
+	for _, f := range []string{"map 0 1", "lru 4 1", "lrus 6 1"} {
+		add("boundary-keytype", "new "+f, "keytype strmix", "add 3 5 -", "add 4 6 -", "add 5 7 -", "get 3 -", "get 4 -", "get 5 -", "peek 3", "peek 4", "peek 5", "upd 4 1 -", "del 5 -",
+			"get 3 -", "get 4 -", "get 5 -", "peek 3", "peek 4", "utl 5 2 -", "uoa 3 1 -", "store 3", "store 4", "store 5", "peek 5", "del 3 -", "get 4 -", "add 3 9 -")
+	}
+	// zero-sized rows (value % 3 = 0) alone in an LRU, deleted and re-added
+	add("boundary-sized", "new lrus 2 1", "add 1 3 -", "peek 1", "del 1 -", "peek 1", "get 1 -", "add 1 6 -", "utr 2 9 -", "del 2 -", "del 1 -", "peek 1", "peek 2", "add 2 3 -", "add 1 4 -", "del 2 -", "peek 2")
+	add("boundary-sized", "new lrus 0 2", "add 1 3 -", "peek 1", "add 2 6 -", "peek 2", "upd 1 3 -", "peek 1", "del 1 -", "peek 1", "get 1 -", "add 1 1 -", "peek 1", "peek 2")
 	add("backlog", "new map 0 1", "backlog 1 70 -", "backlog 1 300 -")
 	add("backlog", "new lru 4 2", "keytype string", "backlog 5 130 -")
 	add("queued", "new map 0 1", "queued 1 3 -", "queued -2 40 -")
